@@ -314,51 +314,45 @@ impl DBInner {
 
         macro_rules! check_meta {
             ($func:ident) => {{
-                let meta1 = Page::from_buf(&data, 0, self.pagesize).$func();
+                // A header page whose type byte is damaged is as invalid as one whose checksum is wrong.
+                let page1 = Page::from_buf(&data, 0, self.pagesize);
+                let meta1 = if page1.page_type == Page::TYPE_META {
+                    Some(page1.$func()).filter(|m| m.valid())
+                } else {
+                    None
+                };
                 // Double check that we have the right pagesize before we read the second page.
-                if meta1.valid() && meta1.pagesize != self.pagesize {
+                if let Some(meta1) = meta1 {
                     assert_eq!(
                         meta1.pagesize, self.pagesize,
                         "Invalid pagesize from meta1 {}. Expected {}.",
                         meta1.pagesize, self.pagesize
                     );
                 }
-                let meta2 = Page::from_buf(&data, 1, self.pagesize).$func();
-                match (meta1.valid(), meta2.valid()) {
-                    (true, true) => {
-                        assert_eq!(
-                            meta1.pagesize, self.pagesize,
-                            "Invalid pagesize from meta1 {}. Expected {}.",
-                            meta1.pagesize, self.pagesize
-                        );
-                        assert_eq!(
-                            meta2.pagesize, self.pagesize,
-                            "Invalid pagesize from meta2 {}. Expected {}.",
-                            meta2.pagesize, self.pagesize
-                        );
+                let page2 = Page::from_buf(&data, 1, self.pagesize);
+                let meta2 = if page2.page_type == Page::TYPE_META {
+                    Some(page2.$func()).filter(|m| m.valid())
+                } else {
+                    None
+                };
+                if let Some(meta2) = meta2 {
+                    assert_eq!(
+                        meta2.pagesize, self.pagesize,
+                        "Invalid pagesize from meta2 {}. Expected {}.",
+                        meta2.pagesize, self.pagesize
+                    );
+                }
+                match (meta1, meta2) {
+                    (Some(meta1), Some(meta2)) => {
                         if meta1.tx_id > meta2.tx_id {
                             Some(meta1)
                         } else {
                             Some(meta2)
                         }
                     }
-                    (true, false) => {
-                        assert_eq!(
-                            meta1.pagesize, self.pagesize,
-                            "Invalid pagesize from meta1 {}. Expected {}.",
-                            meta1.pagesize, self.pagesize
-                        );
-                        Some(meta1)
-                    }
-                    (false, true) => {
-                        assert_eq!(
-                            meta2.pagesize, self.pagesize,
-                            "Invalid pagesize from meta2 {}. Expected {}.",
-                            meta2.pagesize, self.pagesize
-                        );
-                        Some(meta2)
-                    }
-                    (false, false) => None,
+                    (Some(meta1), None) => Some(meta1),
+                    (None, Some(meta2)) => Some(meta2),
+                    (None, None) => None,
                 }
             }};
         }
